@@ -317,11 +317,38 @@ struct Eval {
     shared_border: bool,       // a non-core point within eps of core points of two different clusters
     predict_tie: bool,         // a query row whose maximal vote count is reached by two labels (noise included)
     border_differs: bool,      // a border point labelled differently by the two backends (allowed by the property)
+    cover_boundary_miss: Option<String>, // cover tree's radius query differs from the definition only on pairs with d == eps
+}
+
+/// Compare what a backend's `find_radius` returned with the neighbourhoods of the definition.
+/// Ok(None): equal as sets, no repetitions.  Ok(Some(msg)): they differ only on pairs whose distance
+/// equals eps bit-exactly (the rounding of a pruning bound decides those).  Err(msg): anything else.
+fn compare_radius(lists: &[Vec<usize>], nbh: &[Vec<usize>], d: &[Vec<f64>], eps: f64, what: &str) -> Result<Option<String>, String> {
+    let mut boundary: Option<String> = None;
+    for i in 0..nbh.len() {
+        let mut got = lists[i].clone();
+        got.sort();
+        let before = got.len();
+        got.dedup();
+        if got.len() != before {
+            return Err(format!("{} {}: an index is listed twice: {:?}", what, i, lists[i]));
+        }
+        if got != nbh[i] {
+            for &j in got.iter().filter(|j| !nbh[i].contains(j)).chain(nbh[i].iter().filter(|j| !got.contains(j))) {
+                if d[i][j] == eps {
+                    boundary.get_or_insert(format!("{} {}: index {} at distance exactly eps = {:e} is {}", what, i, j, eps, if got.contains(&j) { "returned" } else { "not returned" }));
+                } else {
+                    return Err(format!("{} {}: returned {:?}, within eps are {:?} (index {} at distance {:e}, eps {:e})", what, i, lists[i], nbh[i], j, d[i][j], eps));
+                }
+            }
+        }
+    }
+    Ok(boundary)
 }
 
 /// Evaluate the whole property on one case (both backends, cross-backend clause, predict).
 fn eval_case(case: &Case) -> Eval {
-    let mut e = Eval { failure: None, skipped: false, nontrivial: false, nclusters: 0, has_border: false, has_noise: false, exact_boundary: false, shared_border: false, predict_tie: false, border_differs: false };
+    let mut e = Eval { failure: None, skipped: false, nontrivial: false, nclusters: 0, has_border: false, has_noise: false, exact_boundary: false, shared_border: false, predict_tie: false, border_differs: false, cover_boundary_miss: None };
     let dxx = match guard(|| dists(case.met, &case.x, &case.x)) {
         Ok(d) => d,
         Err(m) => {
@@ -338,8 +365,40 @@ fn eval_case(case: &Case) -> Eval {
     let nbh = neighbourhoods(&dxx, case.eps);
     let qn = neighbourhoods(&dqx, case.eps);
     let core: Vec<bool> = nbh.iter().map(|v| v.len() >= case.minpts).collect();
+    // mechanism: radius queries of the configured search structure = the points within eps
+    for &cover in &[false, true] {
+        let bname = if cover { "cover_tree" } else { "linear" };
+        match backend_nbs(case, cover) {
+            Err(msg) => {
+                e.failure = Some(("panic".into(), format!("[{}] find_radius panicked: {}", bname, msg)));
+                return e;
+            }
+            Ok((bx, bq)) => {
+                let r = compare_radius(&bx, &nbh, &dxx, case.eps, "training row").and_then(|a| compare_radius(&bq, &qn, &dqx, case.eps, "query row").map(|b| a.or(b)));
+                match r {
+                    Err(msg) => {
+                        e.failure = Some(("radius_query".into(), format!("[{}] {}", bname, msg)));
+                        return e;
+                    }
+                    Ok(Some(msg)) if !cover => {
+                        e.failure = Some(("radius_query".into(), format!("[linear] {}", msg)));
+                        return e;
+                    }
+                    Ok(Some(msg)) => e.cover_boundary_miss = Some(msg),
+                    Ok(None) => {}
+                }
+            }
+        }
+    }
     let mut fits: Vec<Fit> = vec![];
     for &cover in &[false, true] {
+        if cover && e.cover_boundary_miss.is_some() {
+            // the cover tree answered a boundary pair differently (rounding of its pruning bound):
+            // its labels are not held against the definition for this case; counted by the caller
+            let f0 = fits[0].clone();
+            fits.push(f0);
+            continue;
+        }
         let bname = if cover { "cover_tree" } else { "linear" };
         match impl_run(case, cover) {
             Err(msg) => {
@@ -442,6 +501,27 @@ fn shrink(case: &Case, oracle: &str) -> Case {
     }
 }
 
+const COVER_FINDING: &str = "cover-tree-radius-boundary-rounding";
+
+fn finding_listed() -> bool {
+    let paths = [concat!(env!("CARGO_MANIFEST_DIR"), "/../KNOWN_FINDINGS.txt").to_string(), "/verif/KNOWN_FINDINGS.txt".to_string()];
+    paths.iter().any(|p| {
+        std::fs::read_to_string(p)
+            .map(|t| t.lines().any(|l| l.starts_with("finding:") && l.contains("property=C13") && l.contains(&format!("id={}", COVER_FINDING))))
+            .unwrap_or(false)
+    })
+}
+
+/// The cover tree's radius query answered a pair at distance exactly eps differently from `d <= eps`
+/// (rounding in its pruning bound `d <= radius + max_dist`; reported, not repaired).  The cover-tree half
+/// of such a case is excluded and counted; it is a KNOWN-FINDING line once KNOWN_FINDINGS.txt lists it.
+fn note_cover_boundary(out: &mut Out, msg: &str, case: &Case) {
+    out.count("excluded:cover-tree-half:radius-query-differs-at-distance-exactly-eps");
+    if finding_listed() {
+        out.known(COVER_FINDING, &format!("CoverTree::find_radius: {} (n = {}, {})", msg, case.x.len(), case.met.name()));
+    }
+}
+
 fn search_case(out: &mut Out, case: &Case, family: &str) {
     let e = eval_case(case);
     out.eval(case.key(), e.nontrivial);
@@ -450,6 +530,9 @@ fn search_case(out: &mut Out, case: &Case, family: &str) {
         return;
     }
     out.count(&format!("search:{}", family));
+    if let Some(msg) = &e.cover_boundary_miss {
+        note_cover_boundary(out, msg, case);
+    }
     out.count(&format!("search:metric={}", case.met.name()));
     out.count(&format!("search:clusters={}", if e.nclusters >= 4 { "4+".to_string() } else { e.nclusters.to_string() }));
     if e.has_border {
@@ -488,10 +571,13 @@ fn coq_labels_f(p: &[f64]) -> String {
     coq_list(p.iter().map(|v| coq_z(*v as i64)))
 }
 
-fn corr_case(out: &mut Out, case: &Case, euclid_in_coq: bool) {
+fn corr_case(out: &mut Out, case: &Case, euclid_in_coq: bool, skip_cover: bool) {
     let input = case.json();
     let mut lin: Option<(Vec<Vec<usize>>, Fit)> = None;
     for &cover in &[false, true] {
+        if cover && skip_cover {
+            continue;
+        }
         let g = if cover { "cover" } else { "linear" };
         let fit = match impl_run(case, cover) {
             Ok(Some(f)) => f,
@@ -551,9 +637,12 @@ fn corr_case(out: &mut Out, case: &Case, euclid_in_coq: bool) {
 
 /// Small lattice cases aimed at the order-sensitive corners: a border point between two clusters,
 /// tied predict votes.  Only the exact-label groups are emitted.
-fn corr_small(out: &mut Out, case: &Case) {
+fn corr_small(out: &mut Out, case: &Case, skip_cover: bool) {
     let input = case.json();
     for &cover in &[false, true] {
+        if cover && skip_cover {
+            continue;
+        }
         let g = if cover { "cover" } else { "linear" };
         if let (Ok(Some(fit)), Ok((nbs, nbq))) = (impl_run(case, cover), backend_nbs(case, cover)) {
             out.corr(
@@ -684,10 +773,54 @@ fn gen_points(rng: &mut Rng, family: usize, n: usize, dim: usize) -> Vec<Vec<f64
     }
 }
 
-const FAMILIES: [&str; 5] = ["blobs", "uniform", "lattice", "chain", "duplicates"];
+const FAMILIES: [&str; 6] = ["blobs", "uniform", "lattice", "chain", "duplicates", "bridges"];
+
+/// Dense sites joined by single non-core bridge points (each bridge is within eps of core points of
+/// two different clusters): sites of k >= min_samples-2 coincident points at 4t*h, single points at
+/// (4t+1)h, (4t+2)h, (4t+3)h, eps = h exactly, some points dropped, order shuffled.
+fn gen_bridges(rng: &mut Rng, max_sites: usize, nq: usize) -> Case {
+    let h = *rng.pick(&[0.5, 1.0, 2.0]);
+    let dim = rng.usize_in(1, 3);
+    let minpts = rng.usize_in(4, 6);
+    let sites = rng.usize_in(2, max_sites);
+    let ax = rng.below(dim);
+    let at = |v: f64, off: f64| -> Vec<f64> {
+        let mut r = vec![off; dim];
+        r[ax] = v * h;
+        r
+    };
+    let off = rng.int(-2, 2) as f64;
+    let mut x: Vec<Vec<f64>> = vec![];
+    for t in 0..sites {
+        let k = minpts - 2 + rng.below(3);
+        for _ in 0..k {
+            x.push(at(4.0 * t as f64, off));
+        }
+        if t + 1 < sites {
+            for u in 1..=3 {
+                if !rng.chance(0.08) {
+                    x.push(at(4.0 * t as f64 + u as f64, off));
+                }
+            }
+        }
+    }
+    if rng.chance(0.5) {
+        x.push(at(-3.0, off)); // an isolated point
+    }
+    rng.shuffle(&mut x);
+    let mut q: Vec<Vec<f64>> = vec![];
+    for _ in 0..nq {
+        q.push(at(rng.int(-2, 4 * sites as i64) as f64 * if rng.bool() { 1.0 } else { 0.5 }, off));
+    }
+    let met = *rng.pick(&[Met::Euclid, Met::Euclid, Met::Manhattan]);
+    Case { x, q, eps: h, minpts, met }
+}
 
 fn gen_case(rng: &mut Rng, nmax: usize, nq: usize) -> (Case, &'static str) {
-    let family = rng.below(5);
+    let family = rng.below(6);
+    if family == 5 {
+        return (gen_bridges(rng, (nmax / 8).max(2).min(12), nq), FAMILIES[5]);
+    }
     let n = match rng.below(4) {
         0 => rng.usize_in(1, 8.min(nmax)),
         1 => rng.usize_in(1, 30.min(nmax)),
@@ -834,12 +967,21 @@ fn main() {
     ];
     let d9 = Case { x: test_x.clone(), q: vec![vec![100.0, 100.0], vec![1.0, 2.0], vec![3.0, 5.0], vec![2.0, 1.05]], eps: 0.5, minpts: 2, met: Met::Euclid };
     search_case(&mut out, &d9, "corpus");
-    corr_case(&mut out, &d9, true);
+    corr_case(&mut out, &d9, true, false);
     // border point reached first as provisional noise, then relabelled (the property file's mutation)
     let relabel = Case { x: vec![vec![0.0], vec![1.0], vec![2.0], vec![3.0]], q: vec![vec![0.0], vec![-1.0]], eps: 1.0, minpts: 3, met: Met::Euclid };
     search_case(&mut out, &relabel, "corpus");
-    corr_case(&mut out, &relabel, true);
+    corr_case(&mut out, &relabel, true, false);
     corr_param_errors(&mut out, &relabel);
+    // finding (reported, unrepaired): the cover tree drops a point at distance exactly eps (rounded pruning bound)
+    let ct = Case {
+        x: vec![vec![-0.3696377348452781], vec![8.198966975627608], vec![0.18803501149532603]],
+        q: vec![vec![8.198966975627608]],
+        eps: 8.010931964132281,
+        minpts: 2,
+        met: Met::Euclid,
+    };
+    search_case(&mut out, &ct, "corpus");
 
     // ---- correspondence ----
     let ncorr = if a.thorough { 260 } else { 64 };
@@ -851,7 +993,14 @@ fn main() {
             out.count("excluded:near-tie-or-nan");
             continue;
         }
-        corr_case(&mut out, &case, case.x.len() <= 30);
+        if let Some(f) = &e.failure {
+            out.fail(&f.0, &f.1, case.json());
+            continue;
+        }
+        if let Some(msg) = &e.cover_boundary_miss {
+            note_cover_boundary(&mut out, msg, &case);
+        }
+        corr_case(&mut out, &case, case.x.len() <= 30, e.cover_boundary_miss.is_some());
         if i % 16 == 0 {
             corr_param_errors(&mut out, &case);
         }
@@ -864,14 +1013,14 @@ fn main() {
         if kept >= quota {
             break;
         }
-        let case = gen_small_lattice(&mut rng);
+        let case = if t % 3 == 0 { gen_bridges(&mut rng, 3, 6) } else { gen_small_lattice(&mut rng) };
         let e = eval_case(&case);
         if e.skipped || e.failure.is_some() {
             continue;
         }
         let want = (e.shared_border && kept_shared < quota / 2) || (e.predict_tie && e.nclusters >= 2 && kept_tie < quota / 2) || t % 400 == 0;
         if want {
-            corr_small(&mut out, &case);
+            corr_small(&mut out, &case, e.cover_boundary_miss.is_some());
             kept += 1;
             if e.shared_border {
                 kept_shared += 1;
